@@ -294,6 +294,7 @@ def analyse(repo, rep, rule, cls, f, validated_params=()):
     init = (False, frozenset(validated_params))
     states = solve_forward(g, init, transfer, join)
     reported = set()
+    unvalidated = []
     first_store_line = None
     for n in g.nodes:
         if n.id not in states:
@@ -308,6 +309,14 @@ def analyse(repo, rep, rule, cls, f, validated_params=()):
             findings.append((node, what))
 
         fallible_ops(n, dirty, valid, report)
+        if n.kind == "stmt" and isinstance(n.ast, (ast.Assign, ast.AugAssign)) and own_store_targets(n.ast, selfname):
+            # a value returned by the user's function enters the node's state only after its type was validated (or converted)
+            val = n.ast.value
+            leak = sorted({x.id for x in ast.walk(val) if isinstance(x, ast.Name)} & (user_vars - valid))
+            direct = [t for t in (n.ast.targets if isinstance(n.ast, ast.Assign) else [n.ast.target]) if isinstance(t, ast.Attribute)]
+            if leak and direct and not any(isinstance(c0, ast.Call) and (call_name(c0) or "").split(".")[-1] in ("float", "floatOrNan", "int", "str", "bool") and any(
+                    isinstance(x, ast.Name) and x.id in leak for x in ast.walk(c0)) for c0 in ast.walk(val)):
+                unvalidated.append((n, leak[0]))
         if n.kind == "stmt" and own_store_targets(n.ast, selfname):
             if first_store_line is None or n.lineno < first_store_line:
                 first_store_line = n.lineno
@@ -319,7 +328,24 @@ def analyse(repo, rep, rule, cls, f, validated_params=()):
             f"if it raises, fill leaves a half-updated aggregator (counter incremented or new bin inserted)",
             path=f"{f.qualname}: entry -> own-state store (line {first_store_line}) -> line {node.lineno}",
         )
-    rule.ob(not findings, f"{f.qualname}: {len(g.nodes)} CFG nodes, first own-state store at line {first_store_line}")
+    for node, nm in unvalidated:
+        rep.finding(rule.rule, f, node.stmt, f"`{norm(node.stmt)[:70]}` stores the user function's return value `{nm}` into the node's own state on a path where its type "
+                    f"has not been validated (no isinstance test against a number/string type holds here): a wrong-typed value is accepted silently - fill does "
+                    f"not raise, entries grows, and the aggregator now holds a non-number", stmt=f"unvalidated user value stored: {norm(node.stmt)[:50]}")
+    rule.ob(not findings and not unvalidated, f"{f.qualname}: {len(g.nodes)} CFG nodes, first own-state store at line {first_store_line}")
+    # a handler around a child fill / user call that does not end in `raise` swallows the failure of the record
+    for t in walk_local_stmt(f.node):
+        if isinstance(t, ast.Try):
+            inner = [c0 for b in t.body for c0 in ast.walk(b) if isinstance(c0, ast.Call) and (is_user_call(c0, selfname) or (
+                isinstance(c0.func, ast.Attribute) and c0.func.attr == "fill"))]
+            swallowing = [h for h in t.handlers if not (h.body and isinstance(h.body[-1], ast.Raise))]
+            ok = not (inner and swallowing)
+            rule.ob(ok, f"{f.qualname}: try at line {t.lineno}: failures of the record are not swallowed")
+            if not ok:
+                h = swallowing[0]
+                rep.finding(rule.rule, f, h, f"the handler `except {ast.unparse(h.type) if h.type is not None else ''}` around `{ast.unparse(inner[0])[:50]}` does not re-raise: "
+                            f"an exception of that type raised by the user's quantity anywhere below is swallowed, the record is booked (entries grows on the whole "
+                            f"path to the root) and fill returns normally instead of raising", stmt=f"handler swallows failures of {ast.unparse(inner[0])[:40]}")
     return states, g, first_store_line
 
 
